@@ -351,6 +351,8 @@ func c14GenCase(t *rapid.T) c14Case {
 			"mid.enabled=false", "mid.leaf.enabled=false", "mid.enabled=true", "ports={80,443}", "ports={0}", "mid.cfg.mode=1",
 			// nulls: over a default (deletes it), and where nothing is to delete (stays a null in the final values)
 			"global.region=eu", "global.region=mars", "global.region=7", "cfg.level=5", "cfg.level=2", "mid.cfg.level=4", "side.cfg.level=1",
+			// a scalar where an enabled subchart's section belongs
+			"mid=off", "side=1", "mid.leaf=none",
 			"name=null", "replicas=null", "debug=null", "cfg=null", "cfg.mode=null", "extra=null", "mid.name=null", "mid.replicas=null", "mid.leaf.name=null", "side.cfg.level=null",
 		}).Draw(t, "set"))
 	}
@@ -505,9 +507,24 @@ func c14Judge(tb vt.TB, c c14Case) (lbls []string, nontrivial bool) {
 		return []string{"value-flags-rejected"}, false
 	}
 	viol, ok := c14Violators(c.Root, user)
+	// a user value that is not a table where a dependency's section belongs
+	var nonTable func(x *c14Chart, scope map[string]interface{})
+	nonTable = func(x *c14Chart, scope map[string]interface{}) {
+		for _, d := range x.Deps {
+			if raw, has := scope[d.Name]; has {
+				if m, isMap := raw.(map[string]interface{}); isMap {
+					nonTable(d, m)
+				} else {
+					ok = false
+				}
+			}
+		}
+	}
+	nonTable(c.Root, user)
 	if !ok {
-		evid.Note("C14:not-judged/subchart-section-is-not-a-table")
-		return []string{"subchart-section-not-a-table"}, false
+		// what such a subchart's final values are is not defined; judged is only what was rendered: whatever values a chart
+		// was rendered with satisfy its schema
+		return []string{"subchart-section-not-a-table"}, c14JudgeRenderedOnly(tb, c, user)
 	}
 	detail := func() string { return fmt.Sprintf("violating charts (reference): %v\ncase %s", viol, jsonOf(c)) }
 	expectReject := len(viol) > 0 && !c.Skip
@@ -567,6 +584,12 @@ func c14Judge(tb vt.TB, c c14Case) (lbls []string, nontrivial bool) {
 			}
 			fail(sig, res.Err.Error())
 			return false
+		}
+		if res.Err == nil && res.Rel != nil && !op.SkipSchema {
+			if bad := c14RenderedViolators(c.Root, res.Rel.Manifest); len(bad) > 0 {
+				fail("C14:chart-rendered-with-values-that-violate-its-schema/"+what, fmt.Sprintf("charts %v; manifest:\n%s", bad, res.Rel.Manifest))
+				return false
+			}
 		}
 		return true
 	}
@@ -647,6 +670,75 @@ func c14Judge(tb vt.TB, c c14Case) (lbls []string, nontrivial bool) {
 		}
 	}
 	return lbls, nontrivial
+}
+
+// c14RenderedViolators reads, from a manifest, the values every chart of the case was rendered with (each chart's only
+// template prints them) and returns the charts whose schema those values do not satisfy. It does not use the reference
+// for merging values at all.
+func c14RenderedViolators(root *c14Chart, manifest string) (bad []string) {
+	charts := map[string]*c14Chart{}
+	var walk func(c *c14Chart)
+	walk = func(c *c14Chart) {
+		charts[c.Name] = c
+		for _, d := range c.Deps {
+			walk(d)
+		}
+	}
+	walk(root)
+	for _, doc := range strings.Split("\n"+manifest, "\n---") {
+		var obj struct {
+			Metadata struct {
+				Name string `json:"name"`
+			} `json:"metadata"`
+			Data map[string]string `json:"data"`
+		}
+		if yaml.Unmarshal([]byte(doc), &obj) != nil || !strings.HasPrefix(obj.Metadata.Name, "cm-") {
+			continue
+		}
+		c := charts[strings.TrimPrefix(obj.Metadata.Name, "cm-")]
+		if c == nil || c.Schema == nil {
+			continue
+		}
+		var vals interface{}
+		if json.Unmarshal([]byte(obj.Data["v"]), &vals) != nil {
+			continue
+		}
+		if !c14Valid(c.Schema, vals) {
+			bad = append(bad, c.Name)
+		}
+	}
+	sort.Strings(bad)
+	return bad
+}
+
+// c14JudgeRenderedOnly runs template and install for a case the reference does not model and judges the rendered values
+// alone. It reports whether anything was rendered.
+func c14JudgeRenderedOnly(tb vt.TB, c c14Case, user map[string]interface{}) bool {
+	if c.Skip {
+		return false
+	}
+	w := world.New(c.Backend)
+	rendered := false
+	for _, what := range []string{"template", "install"} {
+		op := &world.Op{Kind: "install", DisableHooks: true, Values: user, ChartFn: func() *chart.Chart { return c.Root.build("1.0.0") }}
+		if what == "template" {
+			op.ClientOnly, op.DryRun = true, true
+		}
+		res := w.Run(op)
+		if res.Panic != nil {
+			vt.Violation(tb, "C14:panic/"+what, fmt.Sprint(res.Panic)+"\ncase "+jsonOf(c), c)
+			return rendered
+		}
+		if res.Err != nil || res.Rel == nil {
+			continue
+		}
+		rendered = true
+		if bad := c14RenderedViolators(c.Root, res.Rel.Manifest); len(bad) > 0 {
+			vt.Violation(tb, "C14:chart-rendered-with-values-that-violate-its-schema/"+what, fmt.Sprintf("charts %v; manifest:\n%s\ncase %s", bad, res.Rel.Manifest, jsonOf(c)), c)
+			return rendered
+		}
+	}
+	return rendered
 }
 
 func c14StripSchemas(c *c14Chart) *c14Chart {
